@@ -126,9 +126,13 @@ macro_rules! impl_mul_decimal_and_int {
 
             #[inline(always)]
             fn mul(self, rhs: $t) -> Self::Output {
-                Self::Output{
-                    coeff: self.coeff * i128::from(rhs),
-                    n_frac_digits: self.n_frac_digits,
+                // Overflow must be signaled in all build profiles.
+                match self.coeff.checked_mul(i128::from(rhs)) {
+                    Some(coeff) => Self::Output{
+                        coeff,
+                        n_frac_digits: self.n_frac_digits,
+                    },
+                    None => panic!("{}", DecimalError::InternalOverflow),
                 }
             }
         }
@@ -138,9 +142,13 @@ macro_rules! impl_mul_decimal_and_int {
 
             #[inline(always)]
             fn mul(self, rhs: Decimal) -> Self::Output {
-                Self::Output{
-                    coeff: i128::from(self) * rhs.coeff,
-                    n_frac_digits: rhs.n_frac_digits,
+                // Overflow must be signaled in all build profiles.
+                match i128::from(self).checked_mul(rhs.coeff) {
+                    Some(coeff) => Self::Output{
+                        coeff,
+                        n_frac_digits: rhs.n_frac_digits,
+                    },
+                    None => panic!("{}", DecimalError::InternalOverflow),
                 }
             }
         }
